@@ -161,7 +161,7 @@ def execute(case):
                 log.append((i, "load", label, type(obj).__name__, x_links))
             elif k == "build":
                 # a *live* object built through the API (never been through the reader)
-                sess = builder.Session()
+                sess = builder.Session(layout=case.get("layout", 1))
                 r = seeds.rng(op["seed"], "c05build")
                 for bop in builder.gen_ops(r, op.get("n", 20), first_mods=r.randint(1, 5)):
                     sess.apply(bop)
@@ -331,7 +331,7 @@ def execute(case):
 def base_specs(tier, seed):
     specs = [{"src": "fixture", "name": n} for n in files.fixture_names()]
     n = 40 if tier == "quick" else 600
-    specs += [{"src": "gen", "seed": seeds.derive(seed, "c05gen", i) % (1 << 31), "nest": i % 3 == 0, "n": 20} for i in range(n)]
+    specs += [{"src": "gen", "seed": seeds.derive(seed, "c05gen", i) % (1 << 31), "nest": i % 3 == 0, "n": 20, "layout": 2} for i in range(n)]
     return specs
 
 
@@ -371,7 +371,7 @@ def generate(seed, i, tier="quick"):
     if r.random() < 0.12:
         ops[0] = {"k": "build", "seed": r.getrandbits(30), "n": r.randint(5, 40), "synth": r.randrange(1000) if r.random() < 0.3 else 0}
         ops[1] = {"k": "save"}
-    return {"property": PROPERTY, "world": "cycles", "ops": ops}
+    return {"property": PROPERTY, "world": "cycles", "layout": 2, "ops": ops}
 
 
 def plan(tier, seed):
